@@ -308,6 +308,21 @@ fn run_case(idx: usize, line: &str, dir: &str, out: &mut Out) {
             }
         }
     }
+    // samefile=<digits>: these standard descriptors of the caller are SEPARATE opens of one and the same file (`prog >log 2>log`):
+    // same device and inode, but each with an offset of its own
+    if !spec.get("samefile").is_empty() && spec.get("samefile") != "-" {
+        for ch in spec.get("samefile").chars() {
+            if let Some(d) = ch.to_digit(3) {
+                let f = std::fs::OpenOptions::new().read(true).write(true).create(true).open(format!("{}/std_same_{}", dir, idx % 2)).expect("tmp file");
+                unsafe { libc::dup2(f.as_raw_fd(), d as c_int) };
+                for e in ids.iter_mut() {
+                    if e.0 == format!("p{}", d) {
+                        e.1 = ident(d as c_int);
+                    }
+                }
+            }
+        }
+    }
     let spec_text = format!("{} {} {}", spec.get("in"), spec.get("out"), spec.get("err"));
     let mut obj = make_objects(dir, &spec_text);
     // nonblock=<digits>: the caller keeps these standard descriptors (and every file it passes) in non-blocking mode
@@ -357,6 +372,10 @@ fn run_case(idx: usize, line: &str, dir: &str, out: &mut Out) {
     let (cfg, _cfg_original) = if spec.get("viaclone") == "1" {
         let c = cfg.try_clone().expect("try_clone");
         (c, Some(cfg))
+    } else if spec.get("viaclone") == "2" {
+        // ... or the other way round: a clone is made and kept (a template, a retry copy) while the original is launched
+        let c = cfg.try_clone().expect("try_clone");
+        (cfg, Some(c))
     } else {
         (cfg, None)
     };
